@@ -159,7 +159,7 @@ def fs_property(ctx, pid, module, theorems, oracle, classify=None, needs_ref=Fal
 
 def check_C01(ctx):
     import oracles
-    fs_property(ctx, "C01", "C01", ["C01_rebuild_ignores_index", "C01_rebuild_prefix_stable", "C01_demo"], oracles.c01)
+    fs_property(ctx, "C01", "C01", ["C01_rebuild_ignores_index", "C01_rebuild_prefix_stable", "C01_rows_rebuilt_are_live_rows", "C01_excluded_corners", "C01_demo"], oracles.c01)
 
 
 def check_C02(ctx):
@@ -377,5 +377,94 @@ def check_C18(ctx):
                         samples=[x for r in data["results"] for x in r["out"][:2]][:6])
 
 
-REGISTRY = {"C18": check_C18, "C17": check_C17, "C16": check_C16, "C14": check_C14, "C07": check_C07, "C06": check_C06, "C10": check_C10, "C15": check_C15, "C01": check_C01, "C02": check_C02, "C04": check_C04, "C05": check_C05,
+def check_C08(ctx):
+    import crypto, collections
+    ctx.trusted += M2_TRUST + ["unforgeability of minisign / OpenPGP signatures is an assumption; that the callbacks passed at run time are the functions named at the call sites is by the Go type system"]
+    coq_props(ctx, "C08", ["C08_verify_string", "C08_verify_header", "C08_verify_content", "C08_index_after_verify", "C08_fetch_after_verify",
+                           "C08_callers_pass_the_verifier", "C08_sem", "C08_nonvacuous"])
+    data = crypto.forge_stream(ctx)
+    nfail, n = 0, 0
+    kinds = collections.Counter()
+    for d in data:
+        for r in d["out"]:
+            if "kind" in r:
+                n += 1
+                kinds[(r["kind"], str(r.get("index")))] += 1
+        for f in crypto.c08_oracle(d):
+            nfail += 1
+            if nfail <= 5:
+                ctx.violation(f["kind"], "%s (%s at %s, config %s)" % (f["kind"], f["detail"][0], f["pos"], json.dumps(d["job"]["history"]["config"])),
+                              dict(job=dict(d["job"], flips=[f["pos"]] if f["detail"][0] == "flip" else [], maxflip=0), forgery=f["detail"][0], position=f["pos"], detail=f["detail"],
+                                   how="stfsdrv forge < job.json: writes the tape with the history, forges it, runs recovery.Index(overwrite) with the real verifier and Fetch per row"))
+    ctx.oblige("forgery stream: every header the indexer accepts on a forged tape is one the writer signed, every content Fetch returns without error is one signed under that header; structured forgeries are rejected; untouched and re-encoded tapes are accepted", nfail == 0, "%d failures" % nfail)
+    ctx.coverage.update(evaluations=n, configs=len(data), distinct_nontrivial=len(kinds), forgery_histogram={"%s -> %s" % k: v for k, v in kinds.items()},
+                        exhaustive=(ctx.tier == "thorough"),
+                        rule="tapes written under {minisign, pgp} x {none, age, pgp} (x {none, gzip} thorough); single-byte alterations (quick: 80 sampled positions per tape; thorough: every byte) and structured forgeries per record: edited embedded header with kept / removed / empty / non-base64 / garbage / other-data / other-record / second-key signature, altered content, appended unsigned record; controls: untouched, rewritten, re-encoded signature",
+                        samples=[dict(config=data[0]["job"]["history"]["config"], results=[(r.get("kind"), r.get("pos"), r.get("index")) for r in data[0]["out"][2:8]])] if data else [])
+
+
+def check_C09(ctx):
+    import crypto, collections
+    ctx.trusted += M2_TRUST + ["secrecy of age / OpenPGP ciphertexts is an assumption; the skeleton shows the order and presence of the wrapper calls, not that the encryptor's sink is the tar writer"]
+    coq_props(ctx, "C09", ["C09_headers_wrapped", "C09_only_the_operations_write_headers", "C09_sem", "C09_nonvacuous"])
+    data = crypto.markers_stream(ctx)
+    nfail, n = 0, 0
+    cfgs = collections.Counter()
+    for d in data:
+        c = d["job"]["history"]["config"]
+        cfgs["%s/%s/%s" % (c["enc"], c["comp"] or "-", c["sig"] or "-")] += 1
+        n += len([r for r in d["out"] if "i" in r])
+        for f in crypto.c09_oracle(d):
+            nfail += 1
+            if nfail <= 5:
+                ctx.violation(f["kind"], "%s after call %s under %s" % (f["kind"], f["i"], json.dumps(c)), dict(job=d["job"], failing_call=f["i"], detail=f["detail"],
+                              how="stfsdrv markers < job.json: runs the calls, then searches the raw drive file for every marker (raw, base64 x3 alignments, hex) and the STFS record keys"))
+    ctx.oblige("marker scan: after every call the raw tape contains no planted name/content marker (raw, base64, hex), no STFS record key and no owner name; neither rebuild nor fetch succeeds with an unrelated identity", nfail == 0, "%d failures" % nfail)
+    ctx.coverage.update(evaluations=n, configs=len(data), distinct_nontrivial=len(cfgs), config_histogram=dict(cfgs),
+                        rule="histories whose directory names, file names and contents embed fresh 15-character markers; {age, pgp} x compression x signature configurations (quick: 3 per cipher; thorough: all 36); raw tape scanned after every call",
+                        samples=[dict(config=data[0]["job"]["history"]["config"], markers=data[0]["job"]["markers"], scans=[(r.get("op"), r.get("found")) for r in data[0]["out"][:5]])] if data else [])
+
+
+def check_C03(ctx):
+    import crypto, collections
+    ctx.trusted += M2_TRUST + ["Section hypotheses of C03_content_roundtrip: each decompressor inverts its compressor at every level, each decryptor inverts its encryptor under the matching key (properties of klauspost/compress, pgzip, lz4, zstd, brotli, bzip2, age, go-crypto; validated, not proved, by running the real codecs over the configuration matrix)",
+                            "the suffix tables of Gen/Consts.v are extracted by goskel from the switch statements of internal/suffix (one row per case label, fallthrough merged); strings.TrimSuffix is modelled by trim_suffix"]
+    coq_props(ctx, "C03", ["C03_suffix_roundtrip", "C03_unknown_format_refused", "C03_unencoded_names_refuted", "C03_indexed_names", "C03_write_order", "C03_read_order",
+                           "C03_write_order_sem", "C03_read_order_sem", "C03_order_nonvacuous", "C03_content_roundtrip"])
+    data = crypto.matrix_stream(ctx)
+    nfail, n = 0, 0
+    cfgs, sizes, kinds = collections.Counter(), collections.Counter(), collections.Counter()
+    for d in data:
+        c = d["h"]["config"]
+        cfgs["%s-%s/%s/%s rs=%s %s" % (c["comp"] or "none", c["level"], c["enc"] or "-", c["sig"] or "-", c["rs"], c["cache"])] += 1
+        for b in d["h"]["blobs"]:
+            sizes[b["len"]] += 1
+            kinds[b.get("kind") or "random"] += 1
+        n += len([x for x in d["h"]["calls"] if x.get("tag")])
+        for f in crypto.c03_oracle(d):
+            nfail += 1
+            if nfail <= 5:
+                ctx.violation(f["kind"], "%s for %s under %s" % (f["kind"], f["name"], json.dumps(c)), dict(history=d["h"], failing=f,
+                              how="stfsdrv run < history.json (the history carries the configuration); compare the tagged readfile/stat/restore results and the final fetch/tree observation with history.expect"))
+    ctx.oblige("configuration matrix: every file written (through the filesystem, a batched Archive, an Update) is read back byte-exactly through File.Read after reopen, Operations.Restore and Fetch by position; Stat size = content length; names that end in codec suffixes survive create/chmod/rename/rebuild", nfail == 0, "%d failures" % nfail)
+    cdata = crypto.codec_stream(ctx)
+    cres, cfail = collections.Counter(), 0
+    for d in cdata:
+        for r in d["out"]:
+            res = r.get("result", "")
+            cres["ok" if res == "ok" else res[:70]] += 1
+        for f in crypto.codec_oracle(d):
+            cfail += 1
+            if cfail <= 5:
+                ctx.violation(f["kind"], "codec pipeline %s: %s" % (f["name"], f["detail"][0][:200]), dict(job=d["job"], failing=f,
+                              how="stfsdrv codec < job.json: sign -> compress -> encrypt into a buffer with the drive-kind flag as given, then decrypt -> decompress -> verify, compare"))
+    ctx.oblige("codec interfaces with the drive-kind flag in both positions: every combination either is refused at set-up (regular-only formats, record size too small) or returns exactly what was written", cfail == 0, "%d failures" % cfail)
+    n += sum(cres.values())
+    ctx.coverage.update(codec_results=dict(cres))
+    ctx.coverage.update(evaluations=n, configs=len(data), distinct_nontrivial=len(cfgs), config_histogram=dict(cfgs), size_histogram={str(k): v for k, v in sorted(sizes.items())}, kind_histogram=dict(kinds),
+                        rule="quick: 16 configurations covering every compression format, level, encryption and signature format at least once; thorough: all 8x3x3x3 = 216; record size and write cache drawn per configuration; sizes {0,1,511,512,513,record+-1,3 records+5}, bytes {LCG random, zeros, text}",
+                        samples=[dict(config=data[0]["h"]["config"], calls=len(data[0]["h"]["calls"]))] if data else [])
+
+
+REGISTRY = {"C03": check_C03, "C09": check_C09, "C08": check_C08, "C18": check_C18, "C17": check_C17, "C16": check_C16, "C14": check_C14, "C07": check_C07, "C06": check_C06, "C10": check_C10, "C15": check_C15, "C01": check_C01, "C02": check_C02, "C04": check_C04, "C05": check_C05,
             "C12": check_C12, "C13": check_C13}
